@@ -585,9 +585,236 @@ def correspondence(run):
         seen.add(what)
         report(run, c, obs, None)
     chain_correspondence(run, corpus.get("chain", []))
+    history_correspondence(run, corpus.get("history", []), todo)
     keyword_correspondence(run)
     path_correspondence(run)
     auto_correspondence(run)
+
+
+# ---------------------------------------------------------------------------
+# histories: ONE parsed statement / call site, a sequence of receivers
+# ---------------------------------------------------------------------------
+# history = {"form", "name", "route": "text"|"tree", "mode": "reeval"|"select"|"where"|"select_elvis",
+#            "class_sargs": [sargs|None, sargs|None],        settings on the two probe classes
+#            "receivers": [{"cls": 0|1, "sargs": sargs|None}, ...]}   instance-level settings
+# The model is stateless: the verdict expected for a step is the verdict for THAT receiver's effective settings
+# (instance first, then class), whatever was evaluated at the call site before.
+HISTORY_MODES = ["reeval", "select", "where", "select_elvis"]
+
+
+def history_probe_class(log):
+    class HProbe(object):
+        def __init__(self, rid):
+            object.__setattr__(self, "_rid", rid)
+
+        def __getattribute__(self, n):
+            rid = object.__getattribute__(self, "_rid")
+            log.append((rid, "A", n))
+            if n in ("__yaqlization__", "__class__", "__dict__"):
+                return object.__getattribute__(self, n)
+            if n == "__unwrapped__":
+                raise AttributeError(n)
+            return Leaf(log, rid)
+
+        def __getitem__(self, k):
+            log.append((object.__getattribute__(self, "_rid"), "I", k))
+            return Leaf(log, object.__getattribute__(self, "_rid"))
+
+        def __call__(self, *a, **k):
+            log.append((object.__getattribute__(self, "_rid"), "C", "()"))
+            return self
+    return HProbe
+
+
+def substitute_name(node, name):
+    """replace the placeholder zzz (function name / keyword) everywhere in a parsed tree"""
+    if isinstance(node, expressions.KeywordConstant) and node.value == "zzz":
+        node.value = name
+    if type(node) is expressions.Function and node.name == "zzz":
+        node.name = name
+    for a in getattr(node, "args", ()) or ():
+        substitute_name(a, name)
+    for attr in ("expression", "expr", "source", "destination"):
+        if hasattr(node, attr):
+            substitute_name(getattr(node, attr), name)
+
+
+HISTORY_TEXT = {
+    ("reeval", "attr"): "$obj.%s", ("reeval", "method"): "$obj.%s()", ("reeval", "index"): "$obj[$k]",
+    ("select", "attr"): "$objs.select($.%s)", ("select", "method"): "$objs.select($.%s())", ("select", "index"): "$objs.select($[$k])",
+    ("where", "attr"): "$objs.where($.%s)", ("where", "method"): "$objs.where($.%s())", ("where", "index"): "$objs.where($[$k])",
+    ("select_elvis", "attr"): "$objs.select($?.%s)", ("select_elvis", "method"): "$objs.select($?.%s())",
+    ("select_elvis", "index"): "$objs.select($[$k])",
+}
+
+
+def history_statement(h):
+    tmpl = HISTORY_TEXT[(h["mode"], h["form"])]
+    if h["form"] == "index" or (h["route"] == "text" and lexable(h["form"], h["name"])):
+        return ENGINE(tmpl % h["name"] if "%s" in tmpl else tmpl)
+    st = ENGINE(tmpl % "zzz")
+    substitute_name(st, h["name"])
+    return st
+
+
+def effective_sargs(h, r):
+    return r["sargs"] if r["sargs"] is not None else h["class_sargs"][r["cls"]]
+
+
+def step_obs(entries, err, form):
+    touched = members_touched(entries, False)
+    if err is None:
+        if len(touched) != 1:
+            return None, "step succeeded with member accesses %r" % (touched,)
+        if touched[0][1] != ("I" if form == "index" else "A"):
+            return None, "form %s reached the member through %s" % (form, touched[0][1])
+        return ("reach", touched[0][2]), None
+    cls = exn_class(err)
+    if touched:
+        return ("denied", cls), "raised %s after touching %r" % (type(err).__name__, touched)
+    if cls.startswith("Other:"):
+        return ("denied", cls), "unexpected exception class %s" % type(err).__name__
+    return ("denied", cls), None
+
+
+def run_history(h):
+    """-> [(observation | None, anomaly | None)] per receiver; None/None = not evaluated (the pipeline stopped earlier)"""
+    log = []
+    classes = [history_probe_class(log), history_probe_class(log)]
+    for k, sa in enumerate(h["class_sargs"]):
+        if sa is not None:
+            setattr(classes[k], yaqlization.YAQLIZATION_ATTR, yaqlization.build_yaqlization_settings(**kwargs_of(sa)))
+    objs = []
+    for i, r in enumerate(h["receivers"]):
+        o = classes[r["cls"]](i)
+        if r["sargs"] is not None:
+            object.__setattr__(o, yaqlization.YAQLIZATION_ATTR, yaqlization.build_yaqlization_settings(**kwargs_of(r["sargs"])))
+        objs.append(o)
+    st = history_statement(h)            # parsed ONCE
+    out = []
+    if h["mode"] == "reeval":
+        for i, o in enumerate(objs):
+            ctx = base_context().create_child_context()
+            ctx["obj"] = o
+            ctx["k"] = h["name"]
+            del log[:]
+            try:
+                st.evaluate(context=ctx)
+                err = None
+            except Exception as e:
+                err = e
+            out.append(step_obs([x for x in log if x[0] == i], err, h["form"]))
+        return out
+    ctx = base_context().create_child_context()
+    ctx["objs"] = objs
+    ctx["k"] = h["name"]
+    del log[:]
+    try:
+        st.evaluate(context=ctx)
+        err = None
+    except Exception as e:
+        err = e
+    failed = False
+    for i in range(len(objs)):
+        ent = [x for x in log if x[0] == i]
+        reached = members_touched(ent, False)
+        if failed:
+            out.append((None, "receiver touched after the pipeline failed: %r" % (reached,)) if reached else (None, None))
+        elif reached:
+            out.append(step_obs(ent, None, h["form"]))
+        elif err is not None:
+            out.append(step_obs(ent, err, h["form"]))
+            failed = True
+        else:
+            out.append((None, "receiver skipped by the pipeline"))
+    return out
+
+
+def history_from_case(c, rng, k):
+    """a policy case run as a history: a permissive receiver of the same class first, then the case's own settings"""
+    mode = HISTORY_MODES[k % len(HISTORY_MODES)]
+    others = [S(), S(auto=True), random_settings(rng), S(white=[["s", c["name"]]]), S(remap=[[c["name"], ["s", "zed"]]])]
+    first = others[k % len(others)]
+    recv = [{"cls": 0, "sargs": first}, {"cls": 0, "sargs": c["sargs"]}]
+    if k % 3 == 0:
+        recv.append({"cls": 1, "sargs": c["sargs"]})
+    if k % 5 == 0:
+        recv = [{"cls": 0, "sargs": None}] + recv if mode == "reeval" else recv + [{"cls": 0, "sargs": None}]
+    return {"form": c["form"], "name": c["name"], "route": "text" if k % 2 else "tree", "mode": mode,
+            "class_sargs": [None, S() if k % 4 == 0 else None], "receivers": recv}
+
+
+def random_history(rng):
+    name = rng.choice(["foo", "bar", "token", "alias", "m_foo", "_x", "zed", "x"])
+
+    def st():
+        r = rng.random()
+        if r < 0.15:
+            return None
+        if r < 0.4:
+            return S(auto=rng.random() < 0.5)
+        if r < 0.6:
+            return S(black=[["s", name]])
+        if r < 0.7:
+            return S(white=[["s", "other"]])
+        if r < 0.8:
+            return S(remap=[[name, ["s", rng.choice(["zed", "hidden"])]]])
+        sa = random_settings(rng)
+        sa["remap"] = [kv for kv in sa["remap"] if kv[1][1] not in PROTO_ATTRS]
+        return sa
+    return {"form": rng.choice(FORMS), "name": name, "route": rng.choice(["text", "tree"]), "mode": rng.choice(HISTORY_MODES),
+            "class_sargs": [st() if rng.random() < 0.3 else None, st() if rng.random() < 0.5 else None],
+            "receivers": [{"cls": rng.randrange(2), "sargs": st()} for _ in range(rng.randrange(2, 6))]}
+
+
+def history_terms(h, outs):
+    terms, meta = [], []
+    for i, (obs, anomaly) in enumerate(outs):
+        if obs is None or anomaly:
+            continue
+        c = {"sargs": effective_sargs(h, h["receivers"][i]), "via": False, "form": h["form"], "name": h["name"]}
+        terms.append(case_term(c, obs))
+        meta.append((h, i, c, obs))
+    return terms, meta
+
+
+def history_correspondence(run, corpus, policy_cases):
+    hs = [dict(h) for h in corpus]
+    pool = [c for c in policy_cases if c.get("sargs") is not None and c["name"] not in PROTO_ATTRS
+            and not any(v[1] in PROTO_ATTRS for _, v in c["sargs"]["remap"])]
+    picked = run.rng.sample(pool, min(len(pool), run.n(900, 12000)))
+    hs += [history_from_case(c, run.rng, k) for k, c in enumerate(picked)]
+    hs += [random_history(run.rng) for _ in range(run.n(500, 8000))]
+    terms, meta = [], []
+    for k, h in enumerate(hs):
+        outs = run_history(h)
+        run.case(("history", json.dumps(h, sort_keys=True)), nontrivial=len(set(json.dumps(effective_sargs(h, r), sort_keys=True)
+                                                                                  for r in h["receivers"])) > 1)
+        run.count("history:" + h["mode"] + ":" + h["form"])
+        run.count("history-steps", len(h["receivers"]))
+        if k % 397 == 0:
+            run.sample({"history": h, "observed": [o for o, _ in outs]})
+        for i, (obs, anomaly) in enumerate(outs):
+            if anomaly:
+                run.fail("mismatch", "a step of a history on one parsed call site behaves outside the model: " + anomaly,
+                         {"history": h, "step": i, "observed": [o for o, _ in outs]})
+        t, m = history_terms(h, outs)
+        terms += t
+        meta += m
+    bad = run.coq_mismatches(HEADER, "case", "case_ok", terms, shard=300)
+    seen = set()
+    for j in bad:
+        h, i, c, obs = meta[j]
+        kind, what = explain(c, obs, None)
+        what += " - step %d of a history: the same parsed call site evaluated for a sequence of receivers (%s)" % (i, h["mode"])
+        key = (kind, what.split(" - ")[0], h["mode"])
+        if key in seen:
+            continue
+        seen.add(key)
+        st = spec_settings(c["sargs"], False)
+        run.fail(kind, what, {"history": h, "step": i, "observed": [o for o, _ in run_history(h)],
+                              "required_for_this_receiver": spec_access(c["form"], st, c["name"]),
+                              "theorems": ["C07_policy_sound", "C07_policy_complete", "C07_same_gate"]})
 
 
 # ---------------------------------------------------------------------------
@@ -985,6 +1212,12 @@ def replay(run, data):
         return not run.coq_mismatches(HEADER, "chain_case", "chain_ok", [chain_term(c, obs)])
     if "sweep" in d:
         return c07_sweep.replay(run, d["sweep"])
+    if "history" in d:
+        outs = run_history(d["history"])
+        if any(a for _, a in outs):
+            return False
+        terms, _ = history_terms(d["history"], outs)
+        return not run.coq_mismatches(HEADER, "case", "case_ok", terms)
     if "keyword" in d:
         from yaql.language import utils as yutils
         n = d["keyword"]
